@@ -304,6 +304,7 @@ pub fn gen_world(rng: &mut Rng, prop: &str) -> WorldCfg {
         }
     };
     let n_vamms_hint = vamms.len();
+    let spare_ok = kind == WorldKind::Standard;
     let prefix_vamms = kind == WorldKind::Standard && n_vamms_hint >= 2 && matches!(prop, "C10" | "C03" | "C16" | "C02") && rng.chance(1, 4);
     WorldCfg {
         kind,
@@ -318,6 +319,15 @@ pub fn gen_world(rng: &mut Rng, prop: &str) -> WorldCfg {
         roles,
         start_time: 1_000_000_000 + rng.below(3600 * 24),
         prefix_vamms,
+        spare_if: if spare_ok && matches!(prop, "C03" | "C04" | "C06" | "C07" | "C11" | "C12") && rng.chance(1, 5) {
+            Some(match rng.below(3) {
+                0 => 0,
+                1 => d,
+                _ => trader_balance * 10,
+            })
+        } else {
+            None
+        },
     }
 }
 
@@ -812,6 +822,13 @@ impl Gen {
                 (None, Some(to_if))
             };
             return Step::new(&roles.vamm_owner[v], Op::VammConfig { vamm: v, holding_cap: None, oi_cap: None, toll: None, spread: None, fluct: None, margin_engine: me, insurance_fund: ifn, pricefeed: None, twap_interval: None });
+        }
+        if r.w.addrs.if2.is_some() && rng.chance(1, 8) {
+            // move the engine over to the other insurance fund (the vAMMs have to be registered there before anything can
+            // trade again - the repair move does that - and a vAMM's own insurance-fund field keeps naming the retired fund
+            // until its owner changes it)
+            let other = if r.w.addrs.insurance_fund == r.w.addrs.if1 { "@if2" } else { "@if1" };
+            return Step::new(&roles.engine_owner, Op::EngineConfig { owner: None, insurance_fund: Some(other.to_string()), fee_pool: None, initial: None, maintenance: None, partial: None, liq_fee: None });
         }
         if matches!(prop.as_str(), "C03" | "C12" | "C13" | "C09") && rng.chance(1, 10) {
             // re-point the engine's fee pool at a plain account and back
